@@ -295,6 +295,10 @@ def run(ctx):
         check_prog(ctx, prog, cases, "shape")
     for i in range(ctx.pick(150, 2000)):
         prog = move_prog.gen_move_prog(ctx.rng, depth=4, const_control=False, param_dev=ctx.rng.random() < 0.5)
+        if prog.param_devs and ctx.rng.random() < 0.5:
+            # the received device function is a reversed one (the documented type of schedule.reverse's result)
+            prog.params = [(n, "schedule.ReverseDeviceFunction" if n == "pf" else a) for n, a in prog.params]
+            prog.tags.add("parameter annotated schedule.ReverseDeviceFunction")
         for t in prog.tags:
             ctx.hist("program_features", t)
         check_prog(ctx, prog, cases, "rand")
